@@ -1,6 +1,7 @@
 import Pyunicorn.Model.Proto
 import Pyunicorn.Model.Visibility
 import Pyunicorn.Model.VisibilityExt
+import Pyunicorn.Model.VisibilityBetw
 /-! Line-protocol driver of C14: one request per line on stdin, one answer per line.
 
 * `nvg_mv N x t mv`, `nvg N x t`, `hvg N x` — the three kernels: adjacency matrix or `raise:…`
@@ -14,6 +15,12 @@ import Pyunicorn.Model.VisibilityExt
 * `retclust N A norm`, `advclust N A norm` — the clustering kernels on any 0/1 matrix
 * `nvgR N x t`, `nvgR_mv N x t mv` — the natural kernels in float32 arithmetic (`kernelNR rndF32`)
 * `faithful N x t` — `1` iff `Faithful rndF32 x t N` (then `nvg_float32_eq_exact` applies)
+* `exactdiffs N x t` — `1` iff `ExactDiffs rndF32 x t N` (hypothesis of `nvg_float_subgraph`)
+* `betw x t|- missing horizontal` — round 3:
+  `retarded_betweenness|advanced_betweenness|trans_betweenness` computed by C03's model of the
+  kernel `_nsi_betweenness` (with the masks / index arrays the three methods build), then the same
+  three from the pair-dependency definition `betwSpec`
+* `hvgf32 N x` — the horizontal kernel on the series converted to float32 (`rndF32` on every sample)
 -/
 open Pyunicorn Pyunicorn.Proto Pyunicorn.Visibility
 
@@ -62,6 +69,19 @@ def answer (toks : List String) : String :=
   | ["nvgR", n, x, t] => showLog n.toNat! (kernelNR rndF32 (vals x) (rats t) none n.toNat!)
   | ["faithful", n, x, t] =>
       if decide (Faithful rndF32 (vals x) (rats t) n.toNat!) then "1" else "0"
+  | ["exactdiffs", n, x, t] =>
+      if decide (ExactDiffs rndF32 (vals x) (rats t) n.toNat!) then "1" else "0"
+  | ["hvgf32", n, x] =>
+      showMat (kernelHM ((vals x).map fun v => v.map rndF32) n.toNat! (zeros n.toNat!))
+  | ["betw", x, t, mis, hor] =>
+      match classMat (vals x) (if t == "-" then none else some (rats t)) (mis == "1") (hor == "1") with
+      | .error e => showErr e
+      | .ok A =>
+        let N := A.length
+        let r := List.range N
+        join [showRats (r.map (retBetw N A)), showRats (r.map (advBetw N A)),
+              showRats (r.map (transBetw N A)), showRats (r.map (retBetwSpec N A)),
+              showRats (r.map (advBetwSpec N A)), showRats (r.map (transBetwSpec N A))] "|"
   | ["mat", x, t, mis, hor] =>
       showMat (classMat (vals x) (if t == "-" then none else some (rats t)) (mis == "1") (hor == "1"))
   | [c, x, t, mis, hor] =>
